@@ -268,6 +268,30 @@ func TestC20(t *testing.T) {
 					return c
 				})
 			}
+			// what the standard engine refuses, the specialised engines refuse: operands of different shapes,
+			// also those with as many elements (the flat kernels would run happily over them)
+			if eng != "" {
+				eng, op := eng, op
+				c20cell(t, "EW", fmt.Sprintf("arith/%s/mismatch-shape/eng=%s", op, eng), nCases(10, 200), func(rt *rapid.T) Case {
+					d := engDT(eng)
+					c := genArithCase(rt, "C20", op, d, "TT", rapid.SampledFrom([]string{"pkg", "method"}).Draw(rt, "via"), "safe", c06LayoutKinds)
+					c = withMode(rt, c, rapid.SampledFrom([]string{"safe", "unsafe", "reuse", "incr"}).Draw(rt, "mode"), d)
+					shape := mismatchedShape(rt, c.A.Shape)
+					if len(c.A.Shape) >= 2 && rapid.IntRange(0, 2).Draw(rt, "samesize") > 0 {
+						rev := make([]int, len(c.A.Shape))
+						for i, dd := range c.A.Shape {
+							rev[len(rev)-1-i] = dd
+						}
+						if !tensor.Shape(rev).Eq(tensor.Shape(c.A.Shape)) {
+							shape = rev
+						}
+					}
+					b := genOpnd(rt, shape, "contig", -3, 9, 0, "b2")
+					c.B = &b
+					c.Engine = eng
+					return c
+				})
+			}
 			// column-major operands and destinations, alone and mixed with row-major ones
 			if eng != "" {
 				for _, mode := range []string{"safe", "unsafe", "reuse", "incr"} {
